@@ -438,6 +438,8 @@ def cases(tier: str, seed: int):
         reqs = []
         for _ in range(rng.choice([1, 1, 2, 3])):
             method = rng.choice(['GET', 'GET', 'POST', 'PUT', 'DELETE', 'PATCH'])
+            if rng.random() < 0.06:
+                method = rng.choice(['get', 'Purge', 'Report', 'm-search', 'Delete'])     # case-sensitive tokens, forwarded as sent
             hs = []
             for k in range(rng.randint(0, 6)):
                 hs.append(('X-H%d-%s' % (k, G.token(rng, 1, 5).decode()), G.header_value(rng).decode('latin-1')))
